@@ -68,6 +68,7 @@ func WithSerialReadTimeout(readTimeout time.Duration) func(c *SerialClient) {
 func (c *SerialClient) Do(ctx context.Context, req packet.Request) (packet.Response, error) {
 	simBeforeLock(&c.mu, true)
 	c.mu.Lock()
+	simAfterLock(&c.mu)
 	defer c.mu.Unlock()
 
 	if req == nil {
@@ -163,6 +164,7 @@ func (c *SerialClient) do(ctx context.Context, data []byte, expectedLen int) ([]
 func (c *SerialClient) Close() error {
 	simBeforeLock(&c.mu, true)
 	c.mu.Lock()
+	simAfterLock(&c.mu)
 	defer c.mu.Unlock()
 
 	if c.serialPort == nil {
